@@ -13,8 +13,32 @@ from __future__ import annotations
 import copy
 import json
 
+import os
+import subprocess
+import sys
+import textwrap
+
 from vlib import core, rt
 from props import pipegen, tracegen, idgen
+
+_CHILD = textwrap.dedent('''
+    import json, sys, logging
+    logging.disable(logging.CRITICAL)
+    sys.path.insert(0, "/verif")
+    from props import pipegen, tracegen, c10
+    case = json.load(open(sys.argv[1]))
+    t = tracegen.traced_run(case["nodes"], case["ctx"], detail=case["detail"])
+    print("RECS " + json.dumps([c10.normalise(r) for r in t["records"]], sort_keys=True, default=str))
+''')
+
+
+def fresh_process_records(nodes, ctx0, detail, d):
+    (d / "child.py").write_text(_CHILD)
+    (d / "case.json").write_text(json.dumps({"nodes": nodes, "ctx": ctx0, "detail": detail}))
+    p = subprocess.run([sys.executable, str(d / "child.py"), str(d / "case.json")], capture_output=True, text=True, timeout=180,
+                       env=dict(os.environ, PYTHONHASHSEED="random"), cwd="/")
+    line = next((l for l in p.stdout.splitlines() if l.startswith("RECS ")), None)
+    return None if line is None else json.loads(line[5:])
 
 PROP = "C10"
 VOLATILE_TOP = {"run_id", "timestamp", "seq"}
@@ -97,6 +121,7 @@ def run(tier: str) -> int:
     rep.coverage["copies_spec"] = copies
     core.prove(rep, PROP, thorough=(tier == "thorough"))
     n_cases = 150 if tier == "quick" else 1500
+    n_fresh = 6 if tier == "quick" else 60
     stats = {"pipelines": 0, "observational_runs": 0, "by_detail": {}, "failing": 0, "repro_fresh": 0, "repro_same_object": 0, "repro_after_history": 0,
              "with_sweep": 0}
     samples = []
@@ -138,6 +163,27 @@ def run(tier: str) -> int:
             t3 = tracegen.traced_run(nodes, ctx0, detail=detail)
             stats["repro_after_history"] += 1
             compare_traces(rep, pub, t1["records"], t3["records"], "after-history", detail, has_sweep)
+        # ---- after sibling configurations (same shape, a different sweep / parameter at the same position) --------
+        if has_sweep and i % 2 == 0:
+            from props import c05
+            sibs = [m for (_, m, _) in c05.mutations(nodes, rnd)]
+            rnd.shuffle(sibs)
+            for sib in sibs[:4]:
+                try:
+                    tracegen.traced_run(sib, ctx0, detail=detail)
+                except Exception:
+                    pass
+            t4 = tracegen.traced_run(nodes, ctx0, detail=detail)
+            stats["repro_after_siblings"] = stats.get("repro_after_siblings", 0) + 1
+            compare_traces(rep, pub, t1["records"], t4["records"], "after-sibling-configurations", detail, has_sweep)
+            # ---- a fresh interpreter ---------------------------------------------------------------------------
+            if stats.get("repro_fresh_process", 0) < n_fresh:
+                with rt.tempdir() as d:
+                    fr = fresh_process_records(nodes, ctx0, detail, d)
+                if fr is not None:
+                    stats["repro_fresh_process"] = stats.get("repro_fresh_process", 0) + 1
+                    compare_traces(rep, pub, json.loads(json.dumps(t4["records"], default=str)), fr, "fresh-process-vs-after-history", detail, has_sweep,
+                                   already_normalised_b=True)
         # ---- the same Pipeline object twice --------------------------------------------------------------
         if plain["outcome"] != "constructError":
             ra, rb = same_object_twice(nodes, ctx0, detail)
@@ -164,8 +210,11 @@ def run(tier: str) -> int:
     return rep.finish()
 
 
-def compare_traces(rep, pub, ra, rb, how, detail, has_sweep):
-    na, nb = [normalise(r) for r in ra], [normalise(r) for r in rb]
+def compare_traces(rep, pub, ra, rb, how, detail, has_sweep, already_normalised_b=False):
+    na = [normalise(r) for r in ra]
+    nb = rb if already_normalised_b else [normalise(r) for r in rb]
+    if already_normalised_b:
+        na = json.loads(json.dumps(na, sort_keys=True, default=str))
     if na == nb:
         return
     where = "[record count]"
